@@ -167,9 +167,17 @@ StepMine(e) ==
       inState == b.id \in served
   IN /\ UNCHANGED << tid, miner, unval >>
      /\ txd' = txd
-     /\ IF inState /\ CanApply(b) /\ b.id \notin DOMAIN blocks
-        THEN Store(b) /\ lastValid' = CSPrimed
-        ELSE UNCHANGED << blocks, order, utxo, byHeight, tips, head, lastValid >>
+     \* the served state after a found block is the miner's snapshot + the block: blocks the network thread added since the
+     \* snapshot are dropped from the served state (they stay in the store) -- followed here so that later events are judged
+     \* against the state the node really serves
+     /\ LET n == IF inState /\ CanApply(b) /\ b.id \notin DOMAIN blocks THEN Stored(CSV, b) ELSE CSV
+            KeepS == served \cap DOMAIN n.blocks
+            Restrict(fn) == [x \in KeepS |-> fn[x]]
+            r == IF KeepS = DOMAIN n.blocks \/ KeepS = {} THEN n
+                 ELSE [blocks |-> Restrict(n.blocks), order |-> SelectSeq(n.order, LAMBDA x : x \in KeepS), utxo |-> Restrict(n.utxo),
+                       byHeight |-> Restrict(n.byHeight), tips |-> {x \in KeepS : \A y \in KeepS : n.blocks[y].parent # x},
+                       head |-> IF p.head \in KeepS THEN p.head ELSE n.head]
+        IN SetCS(r) /\ lastValid' = r
      /\ pool' = IF PoolKnown(p) THEN PoolOf(p) ELSE pool
      /\ active' = active \cap stillOpen /\ outbox' = outbox
      /\ LET buf == IF f = "" /\ CanApply(b) THEN Append(buffer, SB(b)) ELSE buffer
